@@ -88,8 +88,10 @@ def run_check(modname, tier, seed, replay=None):
     opts = dict(qto=10000, path_wall=20.0)
     opts.update(getattr(mod, "OPTS", {}).get(tier, {}))
     nproc = int(os.environ.get("VERIF_JOBS", "0")) or min(16, os.cpu_count() or 4)
-    # total wall budget: work items not finished by then are skipped (counted in the evidence, exhaustive=false); the thorough tier always has one
-    budget = opts.get("wall_budget", 900 if tier == "thorough" else None)
+    # total wall budget: work items not finished by then are skipped (counted in the evidence, exhaustive=false). Both tiers have one: the
+    # quick tier needs <= 90 s on the unchanged tree, but a change that makes the code spin until its iteration limit (every path then runs
+    # into its wall) would otherwise keep the check busy for hours before it reports what it already found
+    budget = opts.get("wall_budget", 900 if tier == "thorough" else 600)
     if os.environ.get("VERIF_WALL_BUDGET"):
         budget = float(os.environ["VERIF_WALL_BUDGET"])
     total = PathStats()
@@ -219,6 +221,8 @@ def run_check(modname, tier, seed, replay=None):
         harness_problems.append("too many float-boundary paths without a native witness: %d of %d" % (total.boundary_paths, total.paths))
     if total.paths == 0 or (total.validated == 0 and getattr(mod, "REQUIRE_VALIDATED", True)):
         harness_problems.append("vacuous: %d paths, %d validated" % (total.paths, total.validated))
+    if skipped:
+        print("note: wall budget of %d s reached, %d of %d work items were not run (counted in the evidence, exhaustive=false)" % (budget, skipped, len(work)))
     missing_goals = [g for g in getattr(mod, "GOALS", {}).get(tier, []) if not total.goals.get(g)]
     if missing_goals and not skipped:
         harness_problems.append("coverage goals not reached: %s" % missing_goals)
